@@ -48,6 +48,7 @@ type ownership struct {
 	perCall map[string]bool
 	shared  map[string]bool
 	derived []string // per-call by the structural rule (not in the reviewed table)
+	escaped []string // listed per-call types with an instance that outlives its creating call
 }
 
 func (c *Ctx) ownership() *ownership {
@@ -57,7 +58,13 @@ func (c *Ctx) ownership() *ownership {
 	p := c.P
 	o := &ownership{perCall: map[string]bool{}, shared: map[string]bool{}}
 	for k := range perCallTypes {
-		o.perCall[k] = true
+		// a listed per-call type stays per-call only while no instance is captured by a function value that outlives
+		// its creator (a prepared builder kept inside a generated function is shared by all its calls)
+		if !c.typeEscapes(k) {
+			o.perCall[k] = true
+		} else {
+			o.escaped = append(o.escaped, k)
+		}
 	}
 	if k, err := p.VertexKinds(); err == nil {
 		for _, n := range k.All {
@@ -357,9 +364,102 @@ func (c *Ctx) localUse(u ssa.Instruction, v ssa.Value) bool {
 	cal := ci.Common().StaticCallee()
 	if cal == nil {
 		// calling the closure itself is a local use
-		return ci.Common().Value == v
+		if ci.Common().Value == v {
+			return true
+		}
+		// handing it to a callback parameter of the enclosing function (`cb(v, next)`): local when every in-target
+		// caller supplies a function literal that does nothing with that argument but call it
+		prm := c.spilledParam(ci.Common().Value)
+		if prm == nil || ci.Common().IsInvoke() {
+			return false
+		}
+		argIdx := -1
+		for i, a := range ci.Common().Args {
+			if a == v {
+				argIdx = i
+			}
+		}
+		return argIdx >= 0 && c.callbackOnlyCalls(prm, argIdx, 0)
 	}
 	return c.P.InTarget(cal)
+}
+
+// spilledParam: v is a parameter, or a read of the variable a parameter was spilled to because a nested function
+// literal captures it (directly or from inside that literal).
+func (c *Ctx) spilledParam(v ssa.Value) *ssa.Parameter {
+	if prm, ok := v.(*ssa.Parameter); ok {
+		return prm
+	}
+	if d := c.P.DerefFree(v); d != nil {
+		prm, _ := d.(*ssa.Parameter)
+		return prm
+	}
+	if u, ok := v.(*ssa.UnOp); ok && u.Op == token.MUL {
+		if al, ok := u.X.(*ssa.Alloc); ok {
+			prm, _ := core.SingleStore(al).(*ssa.Parameter)
+			return prm
+		}
+	}
+	return nil
+}
+
+// callbackOnlyCalls: the function value arriving in parameter prm does nothing with its argIdx-th argument but call
+// it — decided over every in-target call site of prm's function (a parameter that is merely forwarded is followed to
+// the forwarding function's own call sites).
+func (c *Ctx) callbackOnlyCalls(prm *ssa.Parameter, argIdx, d int) bool {
+	f := prm.Parent()
+	pi := -1
+	for i, q := range f.Params {
+		if q == prm {
+			pi = i
+		}
+	}
+	sites := c.P.Callers(f)
+	if pi < 0 || len(sites) == 0 || c.P.UsedAsValue(f) || d > 3 {
+		return false
+	}
+	n := 0
+	for _, s := range sites {
+		if pi >= len(s.Common().Args) {
+			return false
+		}
+		var lit *ssa.Function
+		switch a := core.Strip(s.Common().Args[pi]).(type) {
+		case *ssa.MakeClosure:
+			lit, _ = a.Fn.(*ssa.Function)
+		case *ssa.Function:
+			lit = a
+		default:
+			q := c.spilledParam(a)
+			if q == nil {
+				return false
+			}
+			if q == prm {
+				continue // the recursive call hands its own callback on
+			}
+			if !c.callbackOnlyCalls(q, argIdx, d+1) {
+				return false
+			}
+			n++
+			continue
+		}
+		if lit == nil || argIdx >= len(lit.Params) {
+			return false
+		}
+		for _, ref := range *lit.Params[argIdx].Referrers() {
+			rc, isCall := ref.(ssa.CallInstruction)
+			if !isCall || rc.Common().Value != ssa.Value(lit.Params[argIdx]) {
+				return false
+			}
+			for _, a := range rc.Common().Args {
+				if a == ssa.Value(lit.Params[argIdx]) {
+					return false
+				}
+			}
+		}
+		n++
+	}
+	return n > 0
 }
 
 func runShared(c *Ctx) {
@@ -394,7 +494,8 @@ func runShared(c *Ctx) {
 		}
 		bad := ""
 		for i := 0; i < s.NumFields(); i++ {
-			if t := core.NamedOf(derefAll(s.Field(i).Type())); own.perCall[t] {
+			t := core.NamedOf(derefAll(s.Field(i).Type()))
+			if _, listed := perCallTypes[t]; own.perCall[t] || (listed && name != t) {
 				bad = fmt.Sprintf("field %s has per-call type %s", s.Field(i).Name(), t)
 			}
 		}
